@@ -408,6 +408,10 @@ def m_clone(c, p):
     t = last_seg(ty)
     if t.startswith('Arc<') or t.startswith('Rc<'):
         return ip.load(p.cell, p.path)      # shares the allocation
+    if t.startswith('Box<'):
+        b = ip.load(p.cell, p.path)
+        inner_ty = ty[ty.index('<') + 1:-1]
+        return Ptr(Cell(ip.dispatch('<%s as Clone>::clone' % inner_ty, [b], inner_ty), 'box'), ())
     hook = getattr(ip, 'clone_hook', None)
     if hook:
         r = hook(ip, t, v)
@@ -623,12 +627,12 @@ def encode_char(ip, ch):
 
 
 # ----------------------------------------------------------------------------- smart pointers / pin / futures
-@model(r'^<(?:std::sync::)?(?:Arc|Rc|Box)<.*> as (?:std::ops::)?(?:Deref|DerefMut|AsRef<.*>|Borrow<.*>)>::(?:deref|deref_mut|as_ref|borrow)$')
+@model(r'^<(?:std::sync::|std::boxed::|std::rc::)?(?:Arc|Rc|Box)<.*> as (?:std::ops::)?(?:Deref|DerefMut|AsRef<.*>|Borrow<.*>)>::(?:deref|deref_mut|as_ref|borrow)$')
 def m_arc_deref(c, p):
     return c.ip.load(p.cell, p.path)
 
 
-@model(r'^(?:std::sync::)?(?:Arc|Rc|Box)::<.*>::(new|pin)$')
+@model(r'^(?:std::sync::|std::boxed::|std::rc::)?(?:Arc|Rc|Box)::<.*>::(new|pin)$')
 def m_arc_new(c, v):
     return Ptr(Cell(v, 'heap'), ())
 
@@ -800,3 +804,12 @@ def m_option_replace(c, p, v):
     o = ip.load(p.cell, p.path)
     ip.store(p.cell, p.path, some(ip, v))
     return o
+
+
+@model(r'^<.* as (?:std::ops::)?Drop>::drop$')
+def m_drop_trait(c, p):
+    ip = c.ip
+    cands = ip.prog.lookup(c.callee)
+    if cands:
+        return ip.call_function(cands[0], [p])
+    return unit()
